@@ -421,8 +421,9 @@ func cmdCheck(args []string) int {
 				confirmed := false
 				var confPath string
 				tries := vs
-				if len(tries) > 3 {
-					tries = tries[:3]
+				if len(tries) > 4 {
+					// spread over the models found (the first ones tend to share one shape)
+					tries = []*interp.Violation{vs[0], vs[len(vs)/3], vs[2*len(vs)/3], vs[len(vs)-1]}
 				}
 				for _, v := range tries {
 					cexN++
